@@ -131,9 +131,11 @@ def explore(ctx, shape, tier, report):
         else:
             ctx.add(z3.UGE(avail.v, 1))
         reqs_c, queue_c, locked_c, avail_c = Cell(reqs), Cell(queue), Cell(locked), Cell(avail)
-        info = dict(shape=shape, spec=spec, locked_before=locked_before, avail=avail, grants=grants, ncalls=ncalls)
+        call_start = []
+        info = dict(shape=shape, spec=spec, locked_before=locked_before, avail=avail, grants=grants, ncalls=ncalls, call_start=call_start)
         try:
             for _ in range(ncalls):
+                call_start.append(len(grants))
                 call(ctx, reqs_c, queue_c, locked_c, avail_c)
         except Panic as p:
             report.panic(ctx, w, p, info)
@@ -408,12 +410,15 @@ def scenario(ctx, m, kind, info):
     c = Concretizer(m)
     peers = []
     alive = {}
-    for p, r in info['grants']:
+    drop_before_call = {}       # the receiver of a peer goes away right before the call during which its first send fails
+    for k, (p, r) in enumerate(info['grants']):
         alive.setdefault(p.lit.decode(), []).append(r is not None)
+        if r is None and p.lit.decode() not in drop_before_call:
+            drop_before_call[p.lit.decode()] = len([1 for st in info.get('call_start', [0]) if st <= k]) - 1
     for s in info['spec']:
         peers.append(dict(peer=s['peer'].lit.decode(), rooms=[c.atom(r) for r in s['rooms']]))
     sc = dict(kind='acquire_lock', property='C20', peers=peers, locked=[c.atom(r) for r in info['locked_before']], avalaible=c.int(info['avail']),
-              calls=info['ncalls'], receiver_alive=alive)
+              calls=info['ncalls'], receiver_alive=alive, drop_before_call=drop_before_call)
     if kind == 'panic':
         sc['expect'] = dict(result='panic')
         return sc
